@@ -484,6 +484,16 @@ func init() {
 				c.Nontrivial(text)
 				c13CLI(c, []string{"-p", "-f", f, "p.txt", "doc.json"}, "", map[string]string{"p.txt": text, "doc.json": aText}, err != nil)
 			case 2: // hostile YAML / damaged JSON through diff and translate modes
+				if i%8 == 2 {
+					// byte-identical unparseable inputs are still an error, not "no difference"
+					bad := mutateText(c.R, ref.ToJSON(gen.Doc(c.R, gen.PDefault))) + "}"
+					if _, err := jd.ReadJsonString(bad); err != nil {
+						c.Input("json", bad)
+						c.Feature("identical_malformed_inputs")
+						c13CLI(c, []string{"a.json", "b.json"}, "", map[string]string{"a.json": bad, "b.json": bad}, true)
+						c13CLI(c, []string{"-f", "merge", "a.json"}, bad, map[string]string{"a.json": bad}, true)
+					}
+				}
 				var text string
 				if i < 4*len(yamlHostile) {
 					text = yamlHostile[i/4]
